@@ -33,19 +33,50 @@ def group_order(c):
 # cached reference multiplication on Weierstrass / Edwards curves
 # ---------------------------------------------------------------------------
 _MUL = {}
+_DBL = {}       # (cname, P) -> [P, 2P, 4P, ...]; only for points registered with use_doubling_table()
+
+
+def use_doubling_table(cname, P):
+    """thorough tier, scalar grid: many scalars meet the same point P, so k*P is summed from a cached table of the doublings
+    2^i*P (mc.ref.ec.add only; validated against mc.ref.ec.mul in selfcheck())"""
+    c = R.CURVES[cname]
+    if not R.is_neutral(c, P) and (cname, P) not in _DBL:
+        _DBL[(cname, P)] = [P]
+
+
+def _mul_small(cname, c, kk, P):
+    """kk*P for 0 <= kk <= #E/2"""
+    D = _DBL.get((cname, P))
+    if D is None:
+        return R.mul(c, kk, P)
+    while len(D) < kk.bit_length():
+        D.append(R.add(c, D[-1], D[-1]))
+    r = c.neutral
+    i = 0
+    while kk:
+        if kk & 1:
+            r = R.add(c, r, D[i])
+        kk >>= 1
+        i += 1
+    return r
 
 
 def refmul(cname, k, P):
     """k*P by the reference; k >= 0 of any size.  k is reduced modulo #E = h*n first (every point's order
-    divides #E; validated in selfcheck())."""
+    divides #E; validated in selfcheck()); the upper half of the range is computed as -((#E - k)*P)."""
     c = R.CURVES[cname]
     if R.is_neutral(c, P):
         return c.neutral
-    kk = k % group_order(c)
+    N = group_order(c)
+    kk = k % N
     key = (cname, P, kk)
     r = _MUL.get(key, 0)
     if r == 0:
-        r = _MUL[key] = R.mul(c, kk, P)
+        if 2 * kk > N:
+            r = R.neg(c, _mul_small(cname, c, N - kk, P))
+        else:
+            r = _mul_small(cname, c, kk, P)
+        _MUL[key] = r
     return r
 
 
@@ -188,8 +219,8 @@ def x_low_order(cname):
 # ---------------------------------------------------------------------------
 # scalar alphabet (DESIGN C06), ordered simplest-first
 # ---------------------------------------------------------------------------
-def scalar_alphabet(cname, reduced=False):
-    """-> list of (label, k)"""
+def scalar_alphabet(cname, reduced=False, deep=False):
+    """-> list of (label, k); deep (thorough tier only) appends further boundary families to the full alphabet"""
     c = R.CURVES[cname]
     n, h, bits = c.order, c.cofactor, c.bits
     nb = c.size_bytes
@@ -219,11 +250,122 @@ def scalar_alphabet(cname, reduced=False):
     if not reduced:
         S += [("0xffff..(bits+64)", (1 << (bits + 64)) - 1), ("seeded*2^72", (1 + seeded_int("c06/scalar2/" + cname, bits) % (n - 1)) << 72),
               ("2^1031+n", (1 << 1031) + n)]
+    if deep and not reduced:
+        # every 64-bit word boundary of the scalar, up to one word above the field size
+        for j in range(1, words + 2):
+            for d in (-1, 0, 1):
+                S.append(("2^(64*%d)%s" % (j, {-1: "-1", 0: "", 1: "+1"}[d]), (1 << (64 * j)) + d))
+        # each value of the 4-bit window digit repeated over the whole width (src/ec_ws.c WINDOW_SIZE_BITS = 4)
+        for d in range(1, 16):
+            S.append(("0x%x%x.." % (d, d), int("%x" % d * (bits // 4), 16)))
+        # neighbours, halves and multiples of the order (the scalar blinding adds R*n with a 32-bit R)
+        S += [("n-2", n - 2), ("n+2", n + 2), ("(n-1)/2", (n - 1) // 2), ("(n+1)/2", (n + 1) // 2), ("2n-1", 2 * n - 1), ("2n+1", 2 * n + 1),
+              ("3n", 3 * n), ("(2^32-1)*n", ((1 << 32) - 1) * n), ("2^32*n", n << 32), ("2^32*n+1", (n << 32) + 1), ("2^64*n-1", (n << 64) - 1)]
+        if h > 1:
+            S += [("h*n-1", h * n - 1), ("2*h*n", 2 * h * n), ("n+h", n + h)]
+        # long scalars (several times the field size)
+        S += [("2^2048-1", (1 << 2048) - 1), ("2^2048", 1 << 2048), ("2^4096+n", (1 << 4096) + n)]
     seen, out = set(), []
     for lab, k in S:
         if k not in seen:
             seen.add(k)
             out.append((lab, k))
+    return out
+
+
+# ---------------------------------------------------------------------------
+# structured scalar sweeps (thorough tier): complete families, reference by addition chains of the affine group law
+# ---------------------------------------------------------------------------
+# window size / number of tables of the pre-computed generator tables (src/p256_table.c, p384_table.c, p521_table.c);
+# every other scalar multiplication on the Weierstrass curves uses 4-bit windows (src/ec_ws.c WINDOW_SIZE_BITS)
+GTABLE = {"p256": (5, 52), "p384": (5, 77), "p521": (4, 131)}
+SWEEP_EXTRA_BITS = 72           # scalars up to 2^(bits+72): one 64-bit word and one byte above the field size
+
+
+def sweep_families(cname):
+    """-> list of (family name, parameter, number of steps).
+    ('digit', w, npos): d * 2^(w*i) for every window position i < npos and every digit 0 < d < 2^w  (one non-zero w-bit window:
+                        every entry of every pre-computed generator table, every entry of the run-time window in every position)
+    ('pow2', 0, nk):    2^k - 1, 2^k, 2^k + 1 for every k < nk  (every bit length / byte length / word length of the scalar)"""
+    c = R.CURVES[cname]
+    ws = sorted({4, GTABLE.get(cname, (4, 0))[0]})
+    fam = [("digit", w, (c.bits + 8) // w + 1) for w in ws]
+    fam.append(("pow2", 0, c.bits + SWEEP_EXTRA_BITS + 1))
+    return fam
+
+
+def sweep_chunks(cname, chunk_scalars=96):
+    """-> list of (family, w, lo, hi): contiguous step ranges with about chunk_scalars scalars each"""
+    out = []
+    for fam, w, steps in sweep_families(cname):
+        per = ((1 << w) - 1) if fam == "digit" else 3
+        st = max(1, chunk_scalars // per)
+        for lo in range(0, steps, st):
+            out.append((fam, w, lo, min(steps, lo + st)))
+    return out
+
+
+def sweep_count(cname):
+    return sum((((1 << w) - 1) if fam == "digit" else 3) * steps for fam, w, steps in sweep_families(cname))
+
+
+def _chain(dbl, add, neg, P, fam, w, lo, hi):
+    """generic addition chain: yields (label, k, k*P) for the steps lo..hi-1 of a family; dbl/add/neg are the group operations"""
+    if fam == "digit":
+        B = P
+        for _ in range(w * lo):
+            B = dbl(B)
+        for i in range(lo, hi):
+            M = B
+            for d in range(1, 1 << w):
+                yield ("%d*2^(%d*%d)" % (d, w, i), d << (w * i), M)
+                M = add(M, B)
+            for _ in range(w):
+                B = dbl(B)
+    else:
+        B = P
+        for _ in range(lo):
+            B = dbl(B)
+        mP = neg(P)
+        for k in range(lo, hi):
+            yield ("2^%d-1" % k, (1 << k) - 1, add(B, mP))
+            yield ("2^%d" % k, 1 << k, B)
+            yield ("2^%d+1" % k, (1 << k) + 1, add(B, P))
+            B = dbl(B)
+
+
+def sweep_ref(cname, P, fam, w, lo, hi):
+    """-> list of (label, k, k*P) on a Weierstrass / Edwards curve, computed with mc.ref.ec.add only (no scalar reduction);
+    the values are entered into the refmul cache; the last one is cross-checked against refmul's double-and-add"""
+    c = R.CURVES[cname]
+    out = list(_chain(lambda A: R.add(c, A, A), lambda A, B: R.add(c, A, B), lambda A: R.neg(c, A), P, fam, w, lo, hi))
+    lab, k, V = out[-1]
+    if not R.is_neutral(c, P):
+        _MUL.pop((cname, P, k % group_order(c)), None)
+        if refmul(cname, k, P) != V:
+            raise AssertionError("reference disagreement on %s: addition chain and double-and-add differ for %s" % (cname, lab))
+        for lab, k, V in out:
+            _MUL[(cname, P, k % group_order(c))] = V
+    return out
+
+
+def xsweep_ref(cname, u, fam, w, lo, hi):
+    """-> list of (label, k, x(k*(u,.)) or None) on a Montgomery curve or its twist by the exact affine group law;
+    the values are entered into the xmul cache; the last one is cross-checked against xmul (affine double-and-add + RFC 7748 ladder)"""
+    c = R.CURVES[cname]
+    u %= c.p
+    B, P = _lift(c, u)
+
+    def neg(A):
+        return None if A is None else (A[0], (-A[1]) % c.p)
+    out = [(lab, k, None if V is None else V[0])
+           for lab, k, V in _chain(lambda A: _tw_add(c, B, A, A), lambda A, Q: _tw_add(c, B, A, Q), neg, P, fam, w, lo, hi)]
+    lab, k, V = out[-1]
+    _XMUL.pop((cname, k, u), None)
+    if xmul(cname, k, u) != V:
+        raise AssertionError("reference disagreement on %s: addition chain and double-and-add differ for %s" % (cname, lab))
+    for lab, k, V in out:
+        _XMUL[(cname, k, u)] = V
     return out
 
 
@@ -250,8 +392,20 @@ def selfcheck():
         P = R.mul(c, 7, c.G)
         if cname in EDW:
             P = R.add(c, P, torsion_generator(cname))
-        for k in ((1 << (c.bits + 9)) + 5, 2 * c.order, group_order(c) + 1):
+        ks = ((1 << (c.bits + 9)) + 5, 2 * c.order, group_order(c) + 1, c.order - 1, group_order(c) - 3, 3 * group_order(c) - 1,
+              group_order(c) // 2, group_order(c) // 2 + 1, 0x0f0f0f0f0f0f0f0f0f0f0f0f)
+        for k in ks:
             assert R.mul(c, k, P) == refmul(cname, k, P)
+        # the doubling-table variant (thorough tier) against plain double-and-add
+        Q = R.mul(c, 11, P)
+        use_doubling_table(cname, Q)
+        for k in ks:
+            assert R.mul(c, k, Q) == refmul(cname, k, Q)
+        # the addition-chain references of the structured sweeps against plain double-and-add, value by value
+        for fam, w, lo, hi in (("digit", 4, 0, 2), ("digit", 5, 3, 5), ("digit", 4, (c.bits + 8) // 4 - 1, (c.bits + 8) // 4 + 1), ("pow2", 0, 0, 5),
+                               ("pow2", 0, c.bits - 2, c.bits + 3)):
+            for lab, k, V in sweep_ref(cname, P, fam, w, lo, hi):
+                assert R.mul(c, k, P) == V, (cname, lab)
     for cname in MONT:
         c = R.CURVES[cname]
         assert xmul(cname, c.order, c.Gu) is None and xmul(cname, 1, c.Gu) == c.Gu
@@ -263,4 +417,10 @@ def selfcheck():
         # twist points are handled (u = 2 is on the twist of curve25519)
         for u in (2, 3, 4, 6, 7):
             assert xmul(cname, 1, u) == u
+        # the addition-chain references of the structured sweeps against xmul (affine double-and-add + ladder), value by value
+        for u in (c.Gu, 2 if cname == "curve25519" else 6, 1):
+            for fam, w, lo, hi in (("digit", 4, 0, 1), ("digit", 4, 60, 61), ("pow2", 0, 0, 3), ("pow2", 0, c.bits - 1, c.bits + 1)):
+                for lab, k, V in xsweep_ref(cname, u, fam, w, lo, hi):
+                    _XMUL.pop((cname, k, u % c.p), None)
+                    assert xmul(cname, k, u) == V, (cname, u, lab)
     return True
